@@ -268,6 +268,45 @@ pub fn generate(files: &[SourceFile], report: &mut Report) -> String {
         }
         out.push_str(&format!("\n/-- `{}`: accesses to the control words, in source order -/\ndef {} : List String := [{}]\n", fname, lname, order.iter().map(|x| lean_str(x)).collect::<Vec<_>>().join(", ")));
     }
+    // tree bins (`Proto/BinT`): the order of lock_root / unlock_root and of the stores to the list
+    // cells (`first`, `next`, `prev`) and tree links (`left`, `right`, `root`, `parent`) in the two
+    // functions that change a tree bin
+    for (fname, lname) in [("remove_tree_node", "removeTreeNodeOrder"), ("find_or_put_tree_val", "findOrPutTreeValOrder")] {
+        let mut order: Vec<String> = vec![];
+        if let Some(f) = file(files, "node.rs") {
+            if let Some(fi) = find_fn(f, fname) {
+                struct T<'a> {
+                    out: &'a mut Vec<String>,
+                }
+                impl<'ast, 'a> Visit<'ast> for T<'a> {
+                    fn visit_expr_method_call(&mut self, m: &'ast syn::ExprMethodCall) {
+                        syn::visit::visit_expr_method_call(self, m);
+                        let name = m.method.to_string();
+                        match name.as_str() {
+                            "lock_root" | "unlock_root" => self.out.push(name),
+                            "store" => {
+                                let f = field_path(&m.receiver);
+                                let class = match f.as_str() {
+                                    "first" | "next" | "prev" => "list",
+                                    "left" | "right" | "root" | "parent" | "red" => "tree",
+                                    _ => "other",
+                                };
+                                // keep one entry per run of equal classes
+                                let tag = format!("store:{}", class);
+                                if self.out.last() != Some(&tag) {
+                                    self.out.push(tag);
+                                }
+                            }
+                            _ => {}
+                        }
+                    }
+                }
+                let mut t = T { out: &mut order };
+                t.visit_block(fi.block);
+            }
+        }
+        out.push_str(&format!("\n/-- `{}`: lock_root / unlock_root and runs of stores to list cells / tree links, in source order -/\ndef {} : List String := [{}]\n", fname, lname, order.iter().map(|x| lean_str(x)).collect::<Vec<_>>().join(", ")));
+    }
     out.push_str("\nend Flurry.Gen\n");
     report.count("read_closure", clos.len());
     report.count("atomic_sites", sites.len());
